@@ -2402,10 +2402,8 @@ impl Melda {
                                 let r = Revision::new(1, digest.to_string(), None);
                                 cs.push(Change(uuid.to_string(), r, None));
                             } else if record.len() == 3 {
-                                // Update record
-                                if anchors.is_none() {
-                                    bail!("update_record_found_in_origin_delta")
-                                }
+                                // Update record (legitimate also in an origin delta: an
+                                // object can be created and updated before the first commit)
                                 let uuid = record[0]
                                     .as_str()
                                     .ok_or_else(|| anyhow!("expecting_uuid_string"))?;
